@@ -35,7 +35,7 @@
 //	                  listeners (web, smtp, pop3: mask of 0/1) unable to bind: is readyFunc called, is a failure
 //	                  notified, and does what main() does next (cancel, Drain, Drain, Join) return?
 //
-//	scan <n> <nexpired> <k>  one retention pass (DoScan) over n mailboxes of which nexpired hold an expired message;
+//	scan <n> <nexpired> <k> [mem|file]  one retention pass (DoScan) over n mailboxes of which nexpired hold an expired message;
 //	                  the context is cancelled just before the k-th mailbox callback: how many callbacks run from
 //	                  then on (the one that notices, and not one more)?                     -> visited=<c> returned|blocked
 //
@@ -75,6 +75,7 @@ import (
 	"github.com/inbucket/inbucket/v3/pkg/server/pop3"
 	"github.com/inbucket/inbucket/v3/pkg/server/smtp"
 	"github.com/inbucket/inbucket/v3/pkg/storage"
+	"github.com/inbucket/inbucket/v3/pkg/storage/file"
 	"github.com/inbucket/inbucket/v3/pkg/storage/mem"
 	"github.com/inbucket/inbucket/v3/pkg/verifhook"
 	"github.com/rs/zerolog"
@@ -936,9 +937,24 @@ func (c *countStore) VisitMailboxes(f func([]storage.Message) (cont bool)) error
 	})
 }
 
-func runScan(n, nexpired, k int) []string {
+func runScan(n, nexpired, k int, kind string) []string {
 	storage.Constructors["memory"] = mem.New
-	st, err := mem.New(config.Storage{MailboxMsgCap: 100}, extension.NewHost())
+	var st storage.Store
+	var err error
+	if kind == "file" {
+		base := os.Getenv("VERIF_WORKDIR")
+		if base == "" {
+			base = os.TempDir()
+		}
+		dir, derr := os.MkdirTemp(base, "c19scan")
+		if derr != nil {
+			return []string{"SETUP-FAILED"}
+		}
+		defer os.RemoveAll(dir)
+		st, err = file.New(config.Storage{MailboxMsgCap: 100, Params: map[string]string{"path": dir}}, extension.NewHost())
+	} else {
+		st, err = mem.New(config.Storage{MailboxMsgCap: 100}, extension.NewHost())
+	}
 	if err != nil {
 		return []string{"SETUP-FAILED"}
 	}
@@ -1090,7 +1106,11 @@ func run1(kind string, in []string) []string {
 	case "boot":
 		return runBoot(in[0], in[1])
 	case "scan":
-		return runScan(vh.AtoI(in[0]), vh.AtoI(in[1]), vh.AtoI(in[2]))
+		kind := "mem"
+		if len(in) > 3 {
+			kind = in[3]
+		}
+		return runScan(vh.AtoI(in[0]), vh.AtoI(in[1]), vh.AtoI(in[2]), kind)
 	case "life", "tls", "lifet", "stls":
 		shortTimeouts = kind == "lifet"
 		stlsMode = kind == "stls"
